@@ -25,5 +25,11 @@ def genOps : GenOps where
   gridToeplitzFactors := gridToeplitzFactors
   gridForward := gridForward
   addedLoss := addedLoss
+  wiskiFantasyStep := wiskiFantasyStep
+  computeGridSource := computeGridSource
+  computeGridPointDim := computeGridPointDim
+  computeGridResultShape := computeGridResultShape
+  gridForwardLastDimBatch := gridForwardLastDimBatch
+  inducingDeepcopyArgs := inducingDeepcopyArgs
 
 def main : IO Unit := Proto.main (step genOps)
